@@ -177,6 +177,38 @@ def _record_traces(n_records, seed, max_len):
     return recs, bad
 
 
+def _apalache(ck):
+    import shutil as _sh
+    import subprocess
+    import time
+    if not _sh.which('apalache-mc'):
+        ck.extra['apalache'] = 'not installed: skipped'
+        return
+    runs = []
+    out = tempfile.mkdtemp(prefix='apa_')
+    try:
+        for name, init, inv, length, want_error in (('base', 'IndInit', 'IndInv', 0, False), ('step', 'IndStep', 'IndInv', 1, False),
+                                                    ('neg-control', 'IndStep', 'Neg_RawIsMerchSum', 1, True)):
+            t0 = time.time()
+            try:
+                p = subprocess.run(['apalache-mc', 'check', '--init=' + init, '--inv=' + inv, '--length=%d' % length, '--out-dir=' + out,
+                                    'Totals_Ind.tla'], cwd=tlc.SPEC_DIR, stdout=subprocess.PIPE, stderr=subprocess.STDOUT, text=True, timeout=600)
+                text = p.stdout
+            except subprocess.TimeoutExpired:
+                ck.extra['apalache'] = 'timeout in %s: skipped' % name
+                return
+            outcome = 'NoError' if 'The outcome is: NoError' in text else 'Error' if 'The outcome is: Error' in text else 'other'
+            runs.append({'run': name, 'init': init, 'inv': inv, 'length': length, 'outcome': outcome, 'wall_s': round(time.time() - t0, 1)})
+            if outcome == 'other':
+                raise core.Machinery('apalache %s did not decide: %s' % (name, text[-800:]))
+            if (outcome == 'Error') != want_error:
+                raise core.Machinery('apalache %s: expected %s, got %s (model-level; Totals_Ind.tla)' % (name, 'Error' if want_error else 'NoError', outcome))
+    finally:
+        _sh.rmtree(out, ignore_errors=True)
+    ck.extra['apalache'] = {'module': 'Totals_Ind.tla', 'claim': 'IndInit => IndInv and IndInv /\\ Next => IndInv\' for all integer amounts and tag classes',
+                            'runs': runs}
+
+
 def run(ck):
     quick = ck.tier == 'quick'
     ck.assumptions += [
@@ -210,6 +242,10 @@ def run(ck):
                     ck.violation(sig, case, what)
                 if sample:
                     ck.sample(sample, cap=3)
+        # 2b. unbounded amounts: conservation and the agreement of the marginals as an INDUCTIVE invariant of the fold, discharged
+        #     by Apalache for every integer amount (Totals_Ind.tla; the tag-class abstraction it rests on is the TLC invariant
+        #     ClassAbstractionSound above).  Model level only: a failure is machinery, never a verdict.
+        _apalache(ck)
         # 3. code -> spec: recorded executions validated by Trace_Totals
         n_rec = 3000 if quick else 40000
         shards = 1 if quick else 16
